@@ -34,7 +34,7 @@ def _unwrap_hooked(it):
 
 def make_module(name, kind, log, on_import=None):
     m = types.ModuleType(name)
-    if kind in ("mod", "both", "raise", "importer", "bothraise"):
+    if kind in ("mod", "both", "raise", "importer", "bothraise", "bothpresent"):
         def glue(name=name, kind=kind, m=m):
             log.append((name, "module", id(m)))
             if kind in ("raise", "bothraise"):
@@ -87,7 +87,7 @@ def run_history(req):
 
     def new_module(name, kind):
         m = make_module(name, kind, log, on_import)
-        if kind in ("mod", "both", "raise", "importer", "bothraise"):
+        if kind in ("mod", "both", "raise", "importer", "bothraise", "bothpresent"):
             unrun_mod.add(id(m))
         return m
 
@@ -115,6 +115,14 @@ def run_history(req):
                 sys.modules[name] = m
                 present[slot] = (name, m, kind)
                 stats["adds"] += 1
+                if kind in ("bipresent", "bothpresent"):
+                    # The module is ALREADY in sys.modules when the built-in glue for it is declared (what happens at
+                    # `import stackscope` for every module imported before it).  Without glue of its own the built-in
+                    # one is due by the next extraction (it may run at once); with glue of its own that one wins.
+                    register_builtin(name, kind, log)
+                    stats["builtin_glue_declared_for_a_present_module"] = stats.get("builtin_glue_declared_for_a_present_module", 0) + 1
+                    if kind == "bipresent" and (name, "builtin", 0) not in log:
+                        bi_pending.add(name)
             elif t == "remove":
                 slot = op[1]
                 if slot not in present:
